@@ -6,7 +6,7 @@
 (* the document and the probe values; verdicts are recomputed here from    *)
 (* those, never taken from the case generator's classification.            *)
 (***************************************************************************)
-EXTENDS ContractSerde, IntSelect, Json, IOUtils
+EXTENDS ContractSerde, IntSelect, Exclusive, Json, IOUtils
 
 Rec == ndJsonDeserialize(IOEnv.TRACE)
 
@@ -88,6 +88,9 @@ Known(e, prop, d) ==
                       /\ Valid(T.oneOf[j], v, cur.defs)
                       /\ \E pn \in DOMAIN T.oneOf[i].properties \cap DOMAIN T.oneOf[j].properties :
                             /\ T.oneOf[i].properties[pn] # T.oneOf[j].properties[pn]
+                            (* pn is rendered as a member of the variants, not consumed as the serde tag *)
+                            /\ ~\E it \in DOMAIN items : items[it].mod = "" /\ items[it].name = "T"
+                                  /\ \E a \in DOMAIN items[it].serde : items[it].serde[a] = "tag=\"" \o pn \o "\""
                             /\ HasKey(v, pn) /\ ~Valid(T.oneOf[i].properties[pn], Get(v, pn), cur.defs)
            [] k = "C02-mixed-open-closed-variants" ->
                 /\ SHas(T, "oneOf")
@@ -103,9 +106,11 @@ Known(e, prop, d) ==
                       /\ ReqSet(T.oneOf[i]) = DOMAIN T.oneOf[i].properties
                       /\ Valid(T.oneOf[i], v, cur.defs) /\ HasUndeclaredKey(T.oneOf[i], v)
            [] k = "C02-anyof-string-enums-flattened" ->
-                (* an anyOf whose exclusivity typify did not prove: the rendered T is the struct of
-                   flattened optional members *)
-                /\ SHas(T, "anyOf")
+                (* an anyOf whose exclusivity the pinned analysis (module Exclusive, the model of
+                   util.rs all_mutually_exclusive) does not prove: the rendered T is the struct of
+                   flattened optional members.  An anyOf the model proves exclusive is no part of
+                   the finding, however it is rendered. *)
+                /\ SHas(T, "anyOf") /\ AnyOfRoute(T.anyOf, cur.defs) = "flattened"
                 /\ \E i \in DOMAIN items : items[i].mod = "" /\ items[i].kind = "struct" /\ items[i].name = "T"
                       /\ Len(items[i].fields) = Len(T.anyOf)
                       /\ \A j \in DOMAIN items[i].fields : items[i].fields[j].flatten }
